@@ -2,12 +2,15 @@
 //
 // Case blocks (offsets depend only on the tier, so `-seed S -only K` regenerates case K):
 //
-//	A  enumerated condition trees of depth <= 2 over a 3-hash / 2-group universe, each evaluated by the real
-//	   WitnessCondition.Match on every stub context (624)                       [layer i, exhaustive]
+//	A  enumerated condition trees of depth <= 2 (And/Or of 1..3 operands) over a 3-hash / 2-group universe,
+//	   in the thorough tier also every depth-3 tree over one representative leaf per kind, each evaluated by
+//	   the real WitnessCondition.Match on every stub context (624)              [layer i, exhaustive]
 //	B  sampled trees of depth 3..5 on the same contexts                         [layer i, sampled]
 //	C  runtime.CheckHashedWitness on a real VM invocation stack / interop.Context with generated signers   [layer ib]
 //	D  DecodeBinaryCondition on well-formed and malformed encodings             [decoder]
 //	E  System.Runtime.CheckWitness inside contracts deployed on a neotest chain [layer ii]
+//	F  JSON and stack-item decoders of conditions on generated trees            [tree decoders]
+//	G  Signer.DecodeBinary on hand-assembled encodings                          [signer decoder]
 package main
 
 import (
@@ -32,12 +35,17 @@ func main() {
 
 	mu := matchUniverse()
 	trees2 := mu.allDepth2(3)
+	if thorough {
+		trees2 = append(trees2, mu.allDepth3Reduced()...)
+	}
 	nA := (len(trees2) + treesPerCase - 1) / treesPerCase
 	nB := pick(30, 600)
 	nC := pick(20000, 300000)
 	nD := pick(4000, 100000)
 	nE := pick(chainQuick, chainThorough)
-	total := nA + nB + nC + nD + nE
+	nF := pick(3000, 60000)
+	nG := pick(4000, 100000)
+	total := nA + nB + nC + nD + nE + nF + nG
 	if f.Cases > 0 && f.Cases < total {
 		total = f.Cases
 	}
@@ -78,6 +86,12 @@ func main() {
 		case k < nA+nB+nC+nD:
 			runDecodeCase(o, k, r, du)
 			o.Count("cases:D-decode")
+		case k >= nA+nB+nC+nD+nE+nF:
+			runSignerDecCase(o, k, r, du)
+			o.Count("cases:G-signer-decoder")
+		case k >= nA+nB+nC+nD+nE:
+			runTreeDecCase(o, k, r, du)
+			o.Count("cases:F-tree-decoders")
 		default:
 			if ch == nil {
 				var err error
